@@ -178,6 +178,8 @@ fn spec(ctx: &Ctx, pressure: bool) -> SeqSpec {
             get(2),
             Op::ReadAll { keys: vec![1, 3] },
             Op::MultiRead { keys: vec![1, 2], variant: ReadVariant::MultiGetIterator },
+            Op::MultiRead { keys: vec![1, 1, 3], variant: ReadVariant::MultiGet },
+            Op::MultiRead { keys: vec![2, 2, 1], variant: ReadVariant::MultiGetMapIterator },
         ]
     };
     SeqSpec {
